@@ -977,10 +977,12 @@ def _check_push(fn, name):
         g = fn.prog.fn(path) if depth < 2 else None
         if g is not None and g.mir is not None:
             # a recording helper (`fn record(&mut self, op: DiffOp)`): exactly one push, of one of its own parameters
-            inner = [t2 for _, t2 in g.mir.calls() if is_push(g.mir, t2, depth + 1)]
+            inner = [(b2, t2) for b2, t2 in g.mir.calls() if is_push(g.mir, t2, depth + 1)]
             if len(inner) == 1:
-                a = g.mir.resolve_operand(inner[0]["args"][-1])
-                return bool(a and a[0] == "local" and isinstance(a[2], int) and 1 <= a[2] <= g.mir.arg_count)
+                a = g.mir.resolve_operand(inner[0][1]["args"][-1])
+                # the helper records on every path: a conditional push (`if !op.is_empty() { .. }`) drops ops
+                unconditional = not _b6_avoidable(g.mir, [inner[0][0]], set(g.mir.returns()))
+                return bool(a and a[0] == "local" and isinstance(a[2], int) and 1 <= a[2] <= g.mir.arg_count) and unconditional
         return False
     pushes = [t for _, t in m.calls() if is_push(m, t)]
     if len(pushes) != 1:
